@@ -55,6 +55,10 @@ def main(ctx):
                         for restart in (True, False):
                             jobs.append({"sc": "ping", "role": role, "start": start, "I": I, "T": T,
                                          "restart": restart, "npings": 3 if tier == "thorough" else 2})
+                            if start == 0.0 and restart and T == vals[0]:
+                                for size in (125, 124, 13):
+                                    jobs.append({"sc": "ping", "role": role, "start": start, "I": I, "T": T,
+                                                 "restart": restart, "npings": 2, "size": size})
         # the silent peer has also stopped reading (unsent octets in the write buffer): only an
         # abort gets rid of such a connection
         for j in list(jobs):
@@ -74,7 +78,7 @@ def main(ctx):
               "close:responsive_ok", "drop:silent_dropped", "drop:responsive_ok",
               "ping:silent_dropped", "ping:responsive_ok", "ping:data_counts",
               "ping:data_does_not_count", "after_closed_checked", "pings_seen", "disabled_ok",
-              "stalled_peer_jobs", "ping:fragment_as_traffic", "proxy_jobs", "close_started_by_failing", "close_with_autoping",
+              "stalled_peer_jobs", "ping:fragment_as_traffic", "proxy_jobs", "close_started_by_failing", "close_with_autoping", "ping_size_125", "ping:connection_ends_with_ping_outstanding",
               "peerclose_echo"):
         ctx.require(n)
 
@@ -185,11 +189,17 @@ class Run:
             self.conn.settle()
         closed = self.conn.lost
         if closed:
-            w, n, st = len(self.t.written), len(self.p.rec), self.p.state
+            def verdict_():
+                p_ = self.p
+                return (p_.state, p_.wasClean, p_.wasNotCleanReason, p_.wasCloseHandshakeTimeout,
+                        p_.wasServerConnectionDropTimeout, p_.wasOpenHandshakeTimeout,
+                        getattr(p_, "remoteCloseCode", None), getattr(p_, "localCloseCode", None))
+            w, n, st = len(self.t.written), len(self.p.rec), verdict_()
+            timers0 = self.conn.pending_timers()
             self.conn.advance(60.0)
-            if len(self.t.written) != w or len(self.p.rec) != n or self.p.state != st:
-                bad.append(("effect-after-closed", "written+%d rec=%s" % (
-                    len(self.t.written) - w, self.p.rec[n:])))
+            if len(self.t.written) != w or len(self.p.rec) != n or verdict_() != st:
+                bad.append(("effect-after-closed", "written+%d rec=%s; state/verdict %r -> %r (timers pending at "
+                            "close: %s)" % (len(self.t.written) - w, self.p.rec[n:], st, verdict_(), timers0)))
         if self.conn.escapes:
             bad.append(("escape", repr(self.conn.escapes[0])[:160]))
         return bad, closed
@@ -449,6 +459,9 @@ def job(a):
         I, T, restart, npings = a["I"], a["T"], a["restart"], a["npings"]
         opts = {"autoPingInterval": I, "autoPingTimeout": T, "autoPingRestartOnAnyTraffic": restart,
                 "openHandshakeTimeout": 5}
+        if a.get("size"):
+            opts["autoPingSize"] = a["size"]        # documented range 12..125
+            count("ping_size_%d" % a["size"])
         if T:
             delays = sorted(set([0.0, 0.25, max(0.0, T - 1.0), T + 0.25])) + [None]
         else:
@@ -456,6 +469,9 @@ def job(a):
         # "frag": the peer is streaming one long message: a non-final fragment is the only traffic
         kinds = ["pong", "data", "data+pong", "frag"]
         choices = [(d, k) for d in delays for k in (kinds if d is not None else ["-"])]
+        # the connection ends while a ping is outstanding: closing handshake started by the peer followed
+        # by the TCP end, or an abrupt TCP loss - afterwards the ping machinery has to be dead as well
+        choices += [(0.25, "peer-close"), (0.25, "tcp-lost")]
         if stalled:
             choices = [(None, "-")]
         for plan in itertools.product(choices, repeat=npings):
@@ -474,6 +490,7 @@ def job(a):
             pong_times = []
             steps = 0
             frag_open = False
+            ended_by_peer = None
             while r.now() < horizon and not dead:
                 r.tick()
                 steps += 1
@@ -482,7 +499,7 @@ def job(a):
                     pt, payload = r.pings[last_ping_seen]
                     last_ping_seen += 1
                     count("pings_seen")
-                    if len(payload) != 12:
+                    if len(payload) != (a.get("size") or 12):
                         bad("ping-payload-size", str(len(payload)), case)
                     if idx < len(plan):
                         d, k = plan[idx]
@@ -496,6 +513,20 @@ def job(a):
                     # schedule the reaction
                     at = pt + d
                     counts = (k in ("pong", "data+pong")) or (restart and T > 0)
+                    if k in ("peer-close", "tcp-lost"):
+                        while r.now() < at - 1e-9 and r.drop_time is None:
+                            r.tick()
+                        if r.drop_time is None:
+                            if k == "peer-close":
+                                r.feed_frame(8, r.F.close_payload(1000, b"bye"))
+                                if not (r.conn.lost or r.conn.own_drop_pending()):
+                                    r.conn.peer_drop(clean=True)
+                            else:
+                                r.conn.peer_drop(clean=False)
+                            ended_by_peer = k
+                            count("ping:connection_ends_with_ping_outstanding")
+                        dead = True
+                        break
                     if T and (not counts or d > T + 1e-9):
                         expected_drop = (pt, pt + T, "late" if counts else "data-does-not-count")
                     while r.now() < at - 1e-9 and r.drop_time is None:
@@ -539,7 +570,14 @@ def job(a):
                 if r.drop_time is not None:
                     dead = True
             # verdicts
-            if expected_drop is not None:
+            if ended_by_peer:
+                if not after(r, case):
+                    bad("not-closed", "connection ended by the peer (%s) but the endpoint is not closed" % ended_by_peer, case)
+                oc = r.onclose()
+                if len(oc) != 1 or (ended_by_peer == "peer-close" and (oc[0][1] is not True or oc[0][2] != 1000)) \
+                        or (ended_by_peer == "tcp-lost" and (oc[0][1] is not False or oc[0][2] != 1006)):
+                    bad("onclose-args", "%s while a ping was outstanding: onClose %s" % (ended_by_peer, oc), case)
+            elif expected_drop is not None:
                 pt, dl, why = expected_drop
                 if r.drop_time is None or r.drop_time > dl + 1e-9:
                     bad("not-dropped-by-deadline", "ping at %s (%s): drop_time=%s deadline=%s" % (
